@@ -7,3 +7,5 @@ pub use aabb::AABB;
 pub use bvh::{Bounded, Intersectable, BVH};
 pub use ray::Ray;
 pub use occluder::Occluder;
+#[cfg(pachi_cteenergymodel_verif)]
+pub use bvh::verif_hook::verif_bvh_stats;
